@@ -29,11 +29,29 @@ def _comp_over(ex, e, g, st, it):
     items = _static_items(ex, it)
     if items is not None:
         return _unrolled(ex, e, g, st, items)
+    if type(it).__name__ == 'PItems' and isinstance(e, ast.DictComp):
+        return _dictcomp_over_items(ex, e, g, st, it.d)
     if isinstance(it, PMap) and isinstance(e, ast.DictComp):
         return _dictcomp_over_map(ex, e, g, st, it)
     if isinstance(it, PSeq) or (isinstance(it, ZV) and it.kind == 'val'):
         return _over_symbolic_seq(ex, e, g, st, it)
     raise Unsupported(f'comprehension over {it!r} (line {e.lineno} in {ex.spec.qual})')
+
+
+def _dictcomp_over_items(ex, e, g, st, d):
+    """{k: v for k, v in d.items() if cond(k)}: the sub-dictionary of the keys satisfying the filter"""
+    t = g.target
+    if not (isinstance(t, ast.Tuple) and len(t.elts) == 2 and all(isinstance(x, ast.Name) for x in t.elts)
+            and isinstance(e.key, ast.Name) and e.key.id == t.elts[0].id and isinstance(e.value, ast.Name) and e.value.id == t.elts[1].id):
+        raise Unsupported('dict comprehension over items() that is not a key filter')
+    kq = fresh('kq', StringSort())
+    base = st.copy(); base.env[t.elts[0].id] = ZV('str', kq); base.env[t.elts[1].id] = ZV('val', Opt.v(d.arr[kq]))
+    cond = BoolVal(True)
+    for test in g.ifs:
+        res = ex.ev(test, base)
+        if len(res) != 1 or isinstance(res[0][1], Raise): raise Unsupported('comprehension filter with several outcomes')
+        cond = And(cond, truth(res[0][1], res[0][0]))
+    return [(st, PDict(z3.Lambda([kq], If(And(Opt.is_Some(d.arr[kq]), cond), d.arr[kq], Opt.Absent))))]
 
 
 def _dictcomp_over_map(ex, e, g, st, m):
